@@ -337,6 +337,21 @@ def run_scenario(asl, data, picks, workers, which, sm_type="STANDARD", expect=No
         mon.at_quiescence(expect_execs=None)
         if mon.err:
             return mon.err
+        if "C02" in which and not mon.err:
+            # long after everything has ended the engine's periodic back-stop (EventDispatcher.heartbeat -> every 60th
+            # beat StateEngine.heartbeat -> check_for_expired_branch_results) must find nothing to do: no further
+            # notification, no change of a terminal record
+            n_topic = len(sim.BROKER.topic)
+            stubs.CLOCK.now += float(ttl) + 100.0
+            inst.eng.heartbeat(60)
+            k = 0
+            while k < 20 and run.step(timer_horizon):
+                k += 1
+            mon.after_step(run)
+            if not mon.err and len(sim.BROKER.topic) != n_topic:
+                mon.fail("C02 the time-out back-stop published %d more notification(s) after every execution had ended" % (len(sim.BROKER.topic) - n_topic))
+            if mon.err:
+                return mon.err
         if expect is not None:
             got = result_of()
             if got != expect:
